@@ -370,6 +370,15 @@ VCLAUSE(structure, 500, 16000, 400000, "matrix is non-square, or a predicate is 
 	c.cls(m == n ? "square" : "nonsquare");
 	VLOG(c, "A(" << m << "x" << n << ")=" << show(a) << " kind=" << kind << " perturbed=" << perturbed);
 	Matrix A(a);
+	// "matrices of every shape": also a matrix that got its shape from Resize (growing or shrinking either dimension) and its entries one by one
+	if(c.s.chance(0.25))
+	{
+		int p0 = (int) c.s.range(1, 8), q0 = (int) c.s.range(1, 8);
+		Matrix Rz((unsigned) p0, (unsigned) q0, 7.0);
+		VMUST_RETURN("Resize and entry assignment", Rz.Resize(m, n); for(int i = 0; i < m; i++) for(int j = 0; j < n; j++) Rz[(unsigned) i][(unsigned) j] = a[i][j]);
+		A = Rz;
+		c.cls(q0 > n ? "shape_from_Resize_fewer_columns" : "shape_from_Resize");
+	}
 	// definitions
 	bool sq = (m == n), sym = sq, anti = sq, diag = sq;
 	for(int i = 0; i < m && sq; i++)
@@ -390,6 +399,29 @@ VCLAUSE(structure, 500, 16000, 400000, "matrix is non-square, or a predicate is 
 	VCHECK(gsym == sym, "Symmetric()=" << gsym << " definition " << sym);
 	VCHECK(ganti == anti, "Antisymmetric()=" << ganti << " definition " << anti);
 	VCHECK(gdiag == diag, "Diagonal()=" << gdiag << " definition " << diag);
+	// the three predicates are exact statements about the entries: multiplying every entry by the same power of two (exactly, no entry under- or
+	// overflows) cannot change them, however small or large the entries become
+	if(c.s.chance(0.3))
+	{
+		int e2 = (int) c.s.sign() * (int) c.s.range(200, 900);
+		Rows sc = a;
+		bool exact = true;
+		for(auto& r : sc)
+			for(auto& x : r)
+			{
+				double y = std::ldexp(x, e2);
+				if(x != 0 && (y == 0 || !std::isfinite(y) || std::ldexp(y, -e2) != x))
+					exact = false;
+				x = y;
+			}
+		if(exact)
+		{
+			bool ssym = false, santi = false, sdiag = false;
+			VMUST_RETURN("predicates on a rescaled matrix", Matrix S(sc); ssym = S.Symmetric(); santi = S.Antisymmetric(); sdiag = S.Diagonal());
+			c.cls("predicates_after_power_of_two_scaling");
+			VCHECK(ssym == sym && santi == anti && sdiag == diag, "after multiplying every entry by 2^" << e2 << ": Symmetric/Antisymmetric/Diagonal = " << ssym << "/" << santi << "/" << sdiag << ", definitions " << sym << "/" << anti << "/" << diag);
+		}
+	}
 	c.cls(sym ? "sym_true" : "sym_false");
 	c.cls(anti ? "anti_true" : "anti_false");
 	c.cls(diag ? "diag_true" : "diag_false");
